@@ -319,6 +319,30 @@ def ldpc(tier, seed):
         yield ("ldpc", f"H={nm}", {"H": T(H)})
 
 
+def mixing_sequences():
+    """configurations of the same class and the same (n, k) but different parameters, to be built and used A, B, A, ... in ONE process:
+    state shared between instances (class-level / module-level caches keyed too coarsely) then shows up deterministically"""
+    seqs = []
+    h = lambda mu, ext, info: ("hamming", f"mu={mu},ext={int(ext)},info={infoset_str(info)}", {"mu": mu, "extended": ext, "info": info})  # noqa: E731
+    seqs.append([h(3, False, "left"), h(3, False, "right"), h(3, False, [6, 4, 2, 0]), h(3, False, "left")])
+    seqs.append([h(2, True, "left"), h(3, False, "left"), h(3, False, "right"), h(3, True, "left"), h(4, False, "left"), h(4, False, "right")])
+    c = lambda n, g, info: ("cyclic", f"n={n},g={g:#b},form=g,info={info}", {"n": n, "g": g, "h": P.divmod2((1 << n) | 1, g)[0], "form": "g", "info": info})  # noqa: E731
+    seqs.append([c(7, 0b1011, "left"), c(7, 0b1101, "left"), c(7, 0b1011, "right"), c(7, 0b1011, "left")])
+    seqs.append([c(15, 0b10011, "left"), c(15, 0b11111, "left"), c(15, 0b11001, "left"), c(15, 0b10011, "left")])
+    g1 = [[1, 0, 0, 1, 1, 0], [0, 1, 0, 1, 0, 1], [0, 0, 1, 0, 1, 1]]
+    g2 = [[1, 0, 0, 1, 1, 1], [0, 1, 0, 0, 1, 1], [0, 0, 1, 1, 0, 1]]
+    g3 = [[1, 1, 0, 1, 0, 0], [0, 1, 1, 0, 1, 0], [1, 0, 1, 0, 0, 1]]
+    gen = lambda nm, rows: ("generic", f"G=mix-{nm}", {"G": T(rows)})  # noqa: E731
+    seqs.append([gen("a", g1), gen("b", g2), gen("c", g3), gen("a", g1)])
+    sysm = lambda nm, Pm, info: ("systematic", f"P=mix-{nm},info={infoset_str(info)}", {"P": T(Pm), "info": info})  # noqa: E731
+    seqs.append([sysm("a", [[1, 1, 0], [0, 1, 1]], "left"), sysm("b", [[1, 0, 1], [1, 1, 1]], "left"), sysm("a", [[1, 1, 0], [0, 1, 1]], "right"), sysm("a", [[1, 1, 0], [0, 1, 1]], "left")])
+    seqs.append([("rm", f"r={r},m=3", {"r": r, "m": 3}) for r in (0, 1, 2, 1, 0)])
+    seqs.append([("bch", f"mu=4,delta={d},info={i}", {"mu": 4, "delta": d, "info": i, "admissible": True}) for d, i in ((3, "left"), (5, "left"), (5, "right"), (3, "right"), (3, "left"))])
+    seqs.append([("ldpc", "H=mix-a", {"H": T([[1, 1, 0, 1, 0, 0], [0, 1, 1, 0, 1, 0], [1, 0, 1, 0, 0, 1]])}), ("ldpc", "H=mix-b", {"H": T([[1, 1, 1, 0, 0, 0], [0, 0, 1, 1, 1, 0], [1, 0, 0, 0, 1, 1]])}),
+                 ("ldpc", "H=mix-a", {"H": T([[1, 1, 0, 1, 0, 0], [0, 1, 1, 0, 1, 0], [1, 0, 1, 0, 0, 1]])})])
+    return seqs
+
+
 FAMILIES = {
     "generic": generic_small, "generic-structured": generic_structured, "systematic": systematic, "hamming": hamming,
     "golay": golay, "repetition": repetition, "spc": spc, "rm": rm, "cyclic": cyclic, "bch": bch, "rs": rs, "ldpc": ldpc,
